@@ -75,10 +75,18 @@ type frame struct {
 	onPath map[*ssa.BasicBlock]bool
 	defers []*ssa.Defer
 	id     int
+	// boolean parameters bound to a condition of the caller (`helper(x == nil)`):
+	// a test of the parameter is a test of that condition
+	atoms map[ssa.Value]boundAtom
 	// continuation in caller
 	callInstr ssa.CallInstruction
 	retBlock  *ssa.BasicBlock
 	retIdx    int
+}
+
+type boundAtom struct {
+	atom Atom
+	neg  bool
 }
 
 type wstate struct {
@@ -475,6 +483,20 @@ func (w *Walker) canonD(st *wstate, fr *frame, v ssa.Value, d int) string {
 				return "free:" + fieldName(x.X.Type(), x.Field)
 			}
 		}
+		if fv, ok := x.X.(*ssa.FreeVar); ok && holderFree[fv] != nil {
+			// field of a captured holder struct: a captured variable of its own
+			return "free:" + fieldName(x.X.Type(), x.Field)
+		}
+		if len(holderFree) > 0 && len(st.frames) > 1 {
+			// the same, through a helper the holder's address was handed to
+			if base := w.canonD(st, fr, x.X, d+1); strings.HasPrefix(base, "free:") {
+				for _, fv := range st.frames[0].fn.FreeVars {
+					if holderFree[fv] != nil && base == "free:"+fv.Name() {
+						return "free:" + fieldName(x.X.Type(), x.Field)
+					}
+				}
+			}
+		}
 		if al, ok := x.X.(*ssa.Alloc); ok && envAllocs[al] {
 			// field of the callback's environment struct in the function that
 			// builds it: named like a separate local
@@ -720,8 +742,8 @@ func (w *Walker) atomOf(st *wstate, fr *frame, v ssa.Value) (Atom, bool) {
 		neg = !neg
 		v = u.X
 	}
-	if phi, ok := v.(*ssa.Phi); ok {
-		_ = phi
+	if ba, ok := fr.atoms[v]; ok {
+		return ba.atom, ba.neg != neg
 	}
 	// comparisons are normalised to <, ==, > with a truth value, so that the
 	// same test written as `a <= b` or `!(a > b)` gives the same atom
@@ -1264,14 +1286,14 @@ func (w *Walker) instrs(st *wstate, b *ssa.BasicBlock, from int) {
 		case *ssa.RunDefers:
 			for j := len(fr.defers) - 1; j >= 0; j-- {
 				d := fr.defers[j]
-				name, _ := w.staticCallee(st, fr, &d.Call)
+				name, dfn := w.staticCallee(st, fr, &d.Call)
 				args := w.callArgs(st, fr, &d.Call, 0)
 				if k := w.isLockCall(name); k != "" && len(args) > 0 {
 					w.emit(st, Event{Kind: k, Instr: d, Callee: name, Args: args, Addr: args[0], Defd: true})
 					w.applyLock(st, k, args[0])
 					continue
 				}
-				w.emit(st, Event{Kind: "call", Instr: d, Callee: name, Args: args, Defd: true})
+				w.emit(st, Event{Kind: "call", Instr: d, Callee: name, Args: args, Defd: true, Static: dfn})
 			}
 			fr.defers = nil
 		case *ssa.Panic:
@@ -1472,6 +1494,24 @@ func (w *Walker) call(st *wstate, b *ssa.BasicBlock, idx int, in *ssa.Call) bool
 	for i, p := range fn.Params {
 		if i < len(rawArgs) {
 			nf.env[p] = w.canon(st, fr, rawArgs[i])
+			if bt, ok := p.Type().Underlying().(*types.Basic); ok && bt.Info()&types.IsBoolean != 0 {
+				switch rawArgs[i].(type) {
+				case *ssa.BinOp, *ssa.UnOp:
+					if a, neg := w.atomOf(st, fr, rawArgs[i]); a.Kind != "" {
+						if nf.atoms == nil {
+							nf.atoms = map[ssa.Value]boundAtom{}
+						}
+						nf.atoms[p] = boundAtom{a, neg}
+					}
+				case *ssa.Parameter:
+					if ba, ok := fr.atoms[rawArgs[i]]; ok {
+						if nf.atoms == nil {
+							nf.atoms = map[ssa.Value]boundAtom{}
+						}
+						nf.atoms[p] = ba
+					}
+				}
+			}
 		}
 	}
 	if mc, ok := in.Call.Value.(*ssa.MakeClosure); ok {
